@@ -445,3 +445,79 @@ def run(ctx):
                          % (g.name, ", ".join([h[0] for h in hits] + tl)), loc=g.file)
         else:
             r8.ok("%s keeps nothing between calls" % g.qname, "no reference to static-duration objects")
+
+    # ------------------------------------------------------------------ R9
+    r9 = ctx.rule("C18.R9", "a socket's context is built from that socket's own four credential items")
+    check_ctx_args(P, r9)
+
+    # ------------------------------------------------------------------ R10
+    r10 = ctx.rule("C18.R10", "default credential files: every item has its own default name and its own per-namespace name")
+    check_ns_templates(P, r10)
+
+
+def check_ctx_args(P, rule):
+    """every call that obtains an SSL_CTX passes the certificate, key, trust and CRL items of ONE socket record, each in
+    the parameter of its own name, and stores the result in that same record (an item taken from another socket - the
+    server's instead of the accepted connection's - silently ignores what the application configured)"""
+    getter = P.fn("ctx_store_get_ctx")
+    want = [p["name"] for p in getter.params]
+    n = 0
+    for f in P.functions:
+        for c in f.calls(getter.name):
+            n += 1
+            rule.instance("%s: %s" % (f.qname, f.show(c)[:50]))
+            args = f.nodes[c]["args"]
+            roots, bad = set(), []
+            for pname, a in zip(want, args):
+                fl = f.fields_of(a)
+                if not fl or not ("item" in (getter.params[want.index(pname)].get("t") or "")):
+                    continue
+                roots.add(f.apath(a)[0][1:])
+                if fl[-1] != pname:
+                    bad.append("`%s` is passed as %s" % (f.show(a), pname))
+            # where the result goes
+            par = f.parents().get(c)
+            while par is not None and f.nodes[par]["k"] in ("cast", "paren"):
+                par = f.parents().get(par)
+            pn = f.nodes.get(par, {})
+            if pn.get("k") == "bin" and pn["op"] == "=" and f.sn(pn["l"])["k"] == "member":
+                roots.add(f.apath(pn["l"])[0][1:])
+            if len(roots) != 1:
+                bad.append("the items and the result belong to different sockets (%s)" % sorted(r[1] for r in roots))
+            if bad:
+                rule.violation("%s:ctx-items" % f.name, "%s: %s - the handshake runs with credentials or a revocation list other than the ones configured on this socket"
+                               % (f.name, "; ".join(bad)), loc=f.loc(c))
+            else:
+                rule.ok("%s builds its context from its own cert/key/tc/crl items" % f.qname, "argument identity")
+    if n < 3:
+        raise Broken("ctx-args: only %d context lookups found" % n)
+
+
+def check_ns_templates(P, rule):
+    """the four default-file helpers agree: each passes a default template with one %s (the directory) and a namespace
+    template with two (directory, namespace name) for the same item, and the four items are distinct"""
+    calls = []
+    for f in P.fns_in("tls/xcm_tp_btls.c"):
+        for c in f.calls("get_file"):
+            a = f.nodes[c]["args"]
+            d, n = f.sn(a[0]), f.sn(a[1])
+            calls.append((f, c, d.get("v") if d["k"] == "str" else None, n.get("v") if n["k"] == "str" else None))
+    if len(calls) < 4:
+        raise Broken("ns-templates: only %d default-file lookups" % len(calls))
+    seen = set()
+    for f, c, dv, nv in calls:
+        rule.instance("%s: %s" % (f.qname, f.show(c)[:60]))
+        why = None
+        if dv is None or nv is None:
+            why = "a template is not a string literal"
+        elif dv.count("%s") != 1 or nv.count("%s") != 2:
+            why = "the default template `%s` must hold one %%s and the namespace template `%s` two" % (dv, nv)
+        elif nv.replace("_%s", "") != dv:
+            why = "the namespace template `%s` is not the per-namespace variant of `%s`" % (nv, dv)
+        elif dv in seen:
+            why = "the template `%s` is used for two different items" % dv
+        seen.add(dv)
+        if why:
+            rule.violation("%s:ns-template" % f.name, "%s: %s - in a named network namespace this item is read from another namespace's (or another item's) file" % (f.name, why), loc=f.loc(c))
+        else:
+            rule.ok("%s: `%s` / `%s`" % (f.qname, dv, nv), "literal agreement")
